@@ -41,7 +41,9 @@ def models(ctx, thorough):
     # negative control: verified flag published before the checksum pass -> a concurrent reader is served damaged bytes
     ctx.model("MC_ChunkCache", "MC_ChunkCache_earlyverify.cfg", expect_violation="Invs", coverage=False)
     if thorough:
-        ctx.model("MC_ChunkCache", "MC_ChunkCache_big.cfg", timeout=3000)
+        # three threads on one key, and two threads on two keys (6.5 M states each, ~3 min)
+        ctx.model("MC_ChunkCache", "MC_ChunkCache_t3.cfg", timeout=2400, workers=10)
+        ctx.model("MC_ChunkCache", "MC_ChunkCache_k2.cfg", timeout=2400, workers=10)
 
 
 def run_all(ctx, focus):
